@@ -105,7 +105,16 @@ func runC05(c c05Case) (*vstat.Failure, c05Res) {
 	var res c05Res
 	f := vstat.Catch(func() *vstat.Failure {
 		var ff *vstat.Failure
-		ff, res = runC05x(c)
+		// A program may store the wall clock in a value (timestamp() with no time
+		// set): the two runs of a case can then fall into different seconds. A
+		// genuine dependence on history fails every time; clock noise does not
+		// survive three immediate repetitions (each takes well under a millisecond).
+		for attempt := 0; attempt < 3; attempt++ {
+			ff, res = runC05x(c)
+			if ff == nil || ff.Sig == "panic" {
+				break
+			}
+		}
 		return ff
 	})
 	return f, res
